@@ -101,6 +101,8 @@ func NewSpecs() *Specs {
 	return &Specs{Funcs: map[string]*FuncSpec{}, Funs: map[string]*FunDecl{}, Defines: map[string]*Define{}, Ghosts: map[string]*Ghost{}}
 }
 
+var trailingComment = regexp.MustCompile(`\s{2,}#.*$`)
+
 var kwRe = regexp.MustCompile(`^(requires|ensures|invariant|decreases|assert|modifies|loop|at-call|func|assumed|fun|axiom|define|ghost|sort|pure)\b(\[[^\]]*\])?\s*(.*)$`)
 
 type rawItem struct {
@@ -127,6 +129,9 @@ func (s *Specs) LoadFile(path string, commentPrefix string) error {
 		}
 		if t == "" || strings.HasPrefix(t, "#") {
 			continue
+		}
+		if i := trailingComment.FindStringIndex(t); i != nil {
+			t = strings.TrimSpace(t[:i[0]])
 		}
 		if m := kwRe.FindStringSubmatch(t); m != nil {
 			items = append(items, &rawItem{m[1], strings.Trim(m[2], "[]"), m[3], i + 1})
